@@ -28,14 +28,14 @@ TPut == /\ E.k = "Put" /\ StrLen(E.key) = n
 TGet == /\ E.k = "Get" /\ UNCHANGED <<map, n>>
         /\ IF E.key \in Keys(map) THEN E.found /\ <<E.key, E.val>> \in map ELSE ~E.found
 \* Enc: the cell tree is a valid dictionary denoting exactly the map (any label forms)
+\* (the decoded dictionary is handed over as an ARGUMENT: TLC evaluates an argument once, a LET inside an action at every use)
+EncDenotes(D, m) == /\ D.ok
+                    /\ {<<BitsToStr(D.items[i].k), BitsToStr(D.items[i].v.b)>> : i \in 1..Len(D.items)} = m
+                    /\ Len(D.items) = Cardinality(m)
+                    /\ \A i \in 1..Len(D.items) : Len(D.items[i].v.r) = 0
+                    /\ SortedByBits(D.items)
 TEnc == /\ E.k = "Enc" /\ UNCHANGED <<map, n>> /\ E.err = ""
-        /\ LET T == FromJson(E.cells)
-               D == DecDictE(T, E.roots[1] + 1, n)
-           IN /\ D.ok
-              /\ {<<BitsToStr(D.items[i].k), BitsToStr(D.items[i].v.b)>> : i \in 1..Len(D.items)} = map
-              /\ Len(D.items) = Cardinality(map)
-              /\ \A i \in 1..Len(D.items) : Len(D.items[i].v.r) = 0
-              /\ SortedByBits(D.items)
+        /\ EncDenotes(DecDictE(FromJson(E.cells), E.roots[1] + 1, n), map)
 \* Dec: decoding what was encoded lists exactly the map, in ascending key-bit order
 TDec == /\ E.k = "Dec" /\ UNCHANGED <<map, n>> /\ E.err = ""
         /\ AsSet(E.items) = map /\ Len(E.items) = Cardinality(map) /\ StrSorted(E.items) /\ WidthOK(E.items)
